@@ -605,13 +605,16 @@ class Watcher(object):
         self._found_wids = {}
 
         for i in range(self.numprocesses - len(self.processes)):
+            # the time spent spawning is part of the warmup delay; measure it
+            # on a clock that cannot be stepped (res is a wall clock date)
+            begin = time.monotonic()
             res = self.spawn_process()
             if res is False:
                 yield self._stop()
                 break
             delay = self.warmup_delay
             if isinstance(res, float):
-                delay -= (time.time() - res)
+                delay -= (time.monotonic() - begin)
                 if delay < 0:
                     delay = 0
             yield tornado_sleep(delay)
